@@ -490,11 +490,12 @@ def rule_groups(ctx):
     g = ctx.func(UTL, "get_xarray_groups")
     h = ctx.func(UTL, "get_xarray_group")
     TABLES = [("a/x", "a/y", "b/z", "t", "a/s/u", "c/", "ab/q"), ("t", "u"), (), ("g/h/i", "g/h/j", "gh/k", "g"), ("/w", "x/"), ("time", "A/time", "AB/time", "A/B/time")]
+    helpers = {q: fn for q, fn in g.module.funcs.items() if fn.cls is None}          # module-level helpers a restructured version may call
     wrong = None
     ncases = 0
     for names in TABLES:
         ds = Stub("dataset", {"variables": names}, getitem=lambda key: ("selected", tuple(key)))
-        got = call(g, ds, True)
+        got = call(g, ds, True, funcs=helpers)
         want = {nm.split("/", 1)[0] for nm in names if "/" in nm}
         ncases += 1
         if not (isinstance(got, (set, frozenset)) and set(got) == want) and wrong is None:
@@ -506,7 +507,7 @@ def rule_groups(ctx):
     for names in TABLES:
         ds = Stub("dataset", {"variables": names}, getitem=lambda key: ("selected", tuple(key)))
         for grp in ("a", "a/", "b", "ab", "a/s", "g", "g/h", "gh", "A", "A/B", "x", "zz", "t", "c"):
-            got = call(h, ds, grp)
+            got = call(h, ds, grp, funcs=helpers)
             pre = grp if grp.endswith("/") else grp + "/"
             members = tuple(nm for nm in names if nm.startswith(pre))
             want = ("selected", members) if members else ("raises", "KeyError")
@@ -519,7 +520,7 @@ def rule_groups(ctx):
     wrong = None
     for names in TABLES:
         ds = Stub("dataset", {"variables": names}, getitem=lambda key: ("selected", tuple(key)))
-        got = call(g, ds, funcs={"get_xarray_group": h})
+        got = call(g, ds, funcs=helpers)
         want = {grp: ("selected", tuple(nm for nm in names if nm.startswith(grp + "/"))) for grp in {nm.split("/", 1)[0] for nm in names if "/" in nm}}
         if got != want and wrong is None:
             wrong = {"variables": list(names), "get_xarray_groups(dataset)": repr(got)[:200], "expected": repr(want)[:200]}
